@@ -92,7 +92,8 @@ def gen_cases(run):
     rng = run.rng
     for i in range(n):
         k = KINDS[i % len(KINDS)] if i < 4 * len(KINDS) else rng.choice(KINDS)
-        unl = k in ("over_multiply", "classfilter", "shuffle", "repeat", "percent", "subset_index", "subset_percent")
+        unl = k in ("over_multiply", "classfilter", "shuffle", "repeat", "percent", "subset_index", "subset_percent",
+                    "classwise_index", "classwise_percent", "classwise_partition")
         lay = _layout(rng, allow_unlabeled=unl, min_n=1 if k == "repeat" else 0)
         nn = lay["n"]
         # seeds: boundary values (0 is falsy!) next to arbitrary ones
@@ -273,8 +274,6 @@ def run_case(run, spec):
             mk_lo = lambda: kdw.ClasswiseSubsetWrapper(ds, end_percent=p)
             mk_hi = lambda: kdw.ClasswiseSubsetWrapper(ds, start_percent=p)
             name = f"ClasswiseSubsetWrapper(end_percent={p}) / (start_percent={p})"
-            if any(c < 0 for c in cls):
-                return
         ok1, lo = _construct(run, mk_lo, n, name)
         ok2, hi = _construct(run, mk_hi, n, name)
         if not (ok1 and ok2):
@@ -285,7 +284,9 @@ def run_case(run, spec):
         run.count("partition_checked")
         both = Counter(a) + Counter(b)
         if k == "classwise_partition":
-            good = both == Counter(range(n))
+            # unlabeled (-1) samples belong to no class: whether a class-wise subset carries them along is not judged
+            lab = lambda seq: Counter(i for i in seq if 0 <= i < n and cls[i] >= 0)
+            good = lab(a) + lab(b) == Counter(i for i in range(n) if cls[i] >= 0) and all(0 <= i < n for i in a + b)
         else:
             good = a + b == list(range(n))
         if not good:
@@ -354,7 +355,7 @@ def run_case(run, spec):
             V("shuffle:not-a-permutation", f"ShuffleWrapper on {n} samples exposes {_s(ids)}")
         return
 
-    if any(c < 0 for c in cls) and k != "over_multiply":
+    if any(c < 0 for c in cls) and k not in ("over_multiply", "classwise_index", "classwise_percent"):
         cls = [c if c >= 0 else 0 for c in cls]
         lay = dict(lay, classes=cls)
 
@@ -500,6 +501,12 @@ def run_case(run, spec):
         if ids is None:
             return
         ok_sel()
+        if any(not 0 <= i < n for i in ids):
+            V(f"{k}:invalid-index", f"ClasswiseSubsetWrapper({kw}) exposes {_s(ids)}")
+            return
+        if any(c < 0 for c in cls):
+            run.count("classwise_with_unlabeled_samples")
+            ids = [i for i in ids if cls[i] >= 0]  # unlabeled samples belong to no class: not judged
         if want is not None:
             good = ids == want
         else:
